@@ -69,10 +69,9 @@ Print Assumptions C12_redundant_space_changes_nothing.
    bracket - at any nesting depth - changes nothing: same tree up to positions, or an error from the same place.
    [tJ] is exactly that relation between the two forests (Proofs/ParseSpace.v, 420 lines: the operator parse splits at the
    operator and strips the operands, so the space ends up at an end of an operand where [strip] removes it; by induction over
-   the operator levels with the invariant that operators already split away do not occur).  Not covered by a theorem: that
-   [group] maps the token list with the extra space token to the forest with the extra space tree (immediate from its
-   definition - a space is an ordinary token for it - but not proved), and spaces between a name and a delimiter,
-   which the notation does NOT allow to add ("a(b)" is an error, "a (b)" is not). *)
+   the operator levels with the invariant that operators already split away do not occur).  The token-level statement follows
+   below.  Spaces between a name and a delimiter are a different matter: the notation does NOT allow to add them
+   ("a(b)" is an error, "a (b)" is not). *)
 Theorem C12_space_next_to_an_operator_changes_nothing : forall (ap' ap : list Z) (ts' ts : list ttree),
   tJ (fun z => z) ts' ts ->
   match (do x <- parse_top ts'; stage2 ap' x), (do x <- parse_top ts; stage2 ap x) with
@@ -83,6 +82,23 @@ Theorem C12_space_next_to_an_operator_changes_nothing : forall (ap' ap : list Z)
   end.
 Proof. exact space_next_to_operator. Qed.
 Print Assumptions C12_space_next_to_an_operator_changes_nothing.
+
+(* The same on token lists (after the de-duplication of spaces, [parse_deduped]): for every token list L ++ R and every
+   space token s, if L or R is empty, or the token before the place is '->' ',' '+' '(' '[', or the token after it is
+   '->' ',' '+' ')' ']' ([cond L R]), then L ++ s :: R parses like L ++ R.  Through [group]: what it returns is a proper
+   forest whose tokens are the input (group_sound_gen), every proper forest is what [group] returns for its tokens
+   (group_complete), whether and where it fails depends on the delimiters only (group_bal), and the space can be inserted
+   into the forest at the corresponding place (insert_space). *)
+Theorem C12_space_token_next_to_an_operator_changes_nothing : forall (ap' ap : list Z) (s : token) (L R : list token),
+  is_space s = true -> cond L R ->
+  match parse_deduped ap' (L ++ s :: R), parse_deduped ap (L ++ R) with
+  | Ok t', Ok t => erase t' = erase t
+  | Err site' _, Err site _ => site' = site
+  | Internal site', Internal site => site' = site
+  | _, _ => False
+  end.
+Proof. exact space_token_next_to_operator. Qed.
+Print Assumptions C12_space_token_next_to_an_operator_changes_nothing.
 
 (* Re-printing.  "Every expression einx accepts can be written back in the notation and re-read" is FALSE of the faithful
    model, hence of the pinned tree (known finding F5): "[[a b]...]" parses, its printed form "[{a b}...]" does not. *)
